@@ -1,7 +1,7 @@
 """Common body of the spec-class core checks (C01-C06): same pipeline, each keeps its own clauses."""
 from .. import common, specclass_run as R, tla
 
-ALL = ["scalars", "list_int", "set_str", "set_int", "dict_int", "nested", "nested_prep", "prepared", "list_spec", "klist", "kset", "dict_spec"]
+ALL = ["scalars", "list_int", "set_str", "set_int", "dict_int", "nested", "nested_prep", "prepared", "prep_nonidem", "list_spec", "klist", "kset", "dict_spec"]
 ELEM = {"with_item", "update_item", "transform_item", "without_item"}
 
 
@@ -22,7 +22,7 @@ def run(prop, tier, prefixes, *, names=ALL, act_filter=None, quick_pairs=12000, 
     for k in need:
         if not res["ante"].get(k):
             raise tla.MachineryError(f"judge antecedent {k} never true: the check would be vacuous")
-    rep.assumptions += ["receivers are built by the real constructor from the model state (a real history); preparers of the scenarios are idempotent so that this reproduces the state",
+    rep.assumptions += ["receivers are built by the real constructor from the model state (a real history); the pre-state judged is the projection of that real receiver (with the non-idempotent preparer of prep_nonidem the constructor maps model state s to prep(s), which again ranges over every state)",
                         "when several failure causes apply to a call any of their exception classes is accepted; call forms the documentation does not define are "
                         "'unspecified' in the model (only the invariant clauses apply to them)"] + list(assumptions)
     return rep.finish(rule=rule or "every distinct reachable instance state of the TLC model of each scenario x the exported action universe (every helper, flag and argument "
